@@ -46,8 +46,11 @@ impl Intersect for Line2 {
 
         let ua = ua_t / u_b;
         let ub = ub_t / u_b;
-        // Should the points ua, ub both lie on the interval [0, 1] the lines intersect.
-        if 0. <= ua && ua <= 1. && 0. <= ub && ub <= 1. {
+        // Should the points ua, ub both lie on the interval [0, 1] the lines intersect. The end of
+        // one line lying exactly on the other line is an intersection, which rounding errors
+        // can place marginally outside the interval, hence the tolerance.
+        let tol = 1e-10;
+        if -tol <= ua && ua <= 1. + tol && -tol <= ub && ub <= 1. + tol {
             return true;
         }
         false
